@@ -31,7 +31,7 @@ type scriptCtx struct {
 	tick       func(d time.Duration)
 	snapshot   func()
 	count      func(string)
-	checkFresh func() // C15 oracle right after an un-overlapped Clear
+	checkFresh func()           // C15 oracle right after an un-overlapped Clear
 	cliAt      func(ci int) int // yield point client ci is parked at (0: not parked)
 	lastCall   func() *callRec
 	fail       func(prop, what string)
